@@ -23,7 +23,7 @@ def clone(n):
     m = type(n)()
     for f, v in ast.iter_fields(n):
         setattr(m, f, clone(v) if isinstance(v, (ast.AST, list)) else v)
-    for a in ('lineno', 'col_offset', 'end_lineno', 'end_col_offset'):
+    for a in ('lineno', 'col_offset', 'end_lineno', 'end_col_offset', '_ifexp'):
         if hasattr(n, a):
             setattr(m, a, getattr(n, a))
     return m
@@ -137,7 +137,9 @@ def _replace(root, old, new):
 
     def cp(n):
         if n is old:
-            return cp2(new)
+            m = cp2(new)
+            m._ifexp = old           # the branch stands where the conditional expression stood
+            return m
         return cp2(n)
 
     def cp2(n):
@@ -148,7 +150,7 @@ def _replace(root, old, new):
         m = type(n)()
         for f, v in ast.iter_fields(n):
             setattr(m, f, cp(v) if isinstance(v, (ast.AST, list)) else v)
-        for a in ('lineno', 'col_offset', 'end_lineno', 'end_col_offset'):
+        for a in ('lineno', 'col_offset', 'end_lineno', 'end_col_offset', '_ifexp'):
             if hasattr(n, a):
                 setattr(m, a, getattr(n, a))
         return m
@@ -346,6 +348,25 @@ def _size(e):
     return sum(1 for _ in ast.walk(e))
 
 
+MUTATORS = ('append', 'extend', 'insert', 'pop', 'remove', 'clear', 'update', 'setdefault', 'popitem', 'sort', 'reverse', 'add', 'discard',
+            'fill', 'resize', 'put', 'itemset', 'setflags', 'byteswap')
+
+
+def mutated_names(nodes):
+    """names whose object is changed in place somewhere in `nodes` (method call that mutates, item/attribute store, augmented
+    assignment, del of an item): such a name is never replaced by its defining expression"""
+    out = set()
+    for root in nodes:
+        for n in ast.walk(root):
+            if isinstance(n, ast.Call) and isinstance(n.func, ast.Attribute) and isinstance(n.func.value, ast.Name) and n.func.attr in MUTATORS:
+                out.add(n.func.value.id)
+            elif isinstance(n, (ast.Subscript, ast.Attribute)) and isinstance(n.ctx, (ast.Store, ast.Del)) and isinstance(n.value, ast.Name):
+                out.add(n.value.id)
+            elif isinstance(n, ast.AugAssign) and isinstance(n.target, ast.Name):
+                pass        # handled as a re-binding by the substitution itself
+    return out
+
+
 def _stored_names(node):
     return set(n.id for n in ast.walk(node) if isinstance(n, ast.Name) and isinstance(n.ctx, (ast.Store, ast.Del)))
 
@@ -419,6 +440,7 @@ def expand(path, env=None, cap=1500, keep=()):
     env = dict(env or {})
     res = Expanded()
     decided = {}
+    keep = set(keep) | mutated_names(path.stmts)
     for item in path.items:
         if item[0] == 'cond':
             e, pol = item[1], item[2]
@@ -504,11 +526,12 @@ def subst(expr, env):
     return _Sub(env).visit(clone(expr)) if env else expr
 
 
-def dominating_env(fn, stmt, cap=1500, keep=()):
+def dominating_env(fn, stmt, cap=1500, keep=(), deep=True):
     """{name: fully substituted defining expression} for plain assignments `name = expr` that are executed, exactly once since the
     name was last bound, on every way to `stmt`: the assignments that precede it in its own block and in the enclosing blocks.
     Anything bound in between by another kind of statement (branches, loops, unpacking, with/for targets), or anywhere in a loop
-    that encloses `stmt`, is left a name."""
+    that encloses `stmt`, is left a name; so is a name whose object is changed in place anywhere in the function.
+    deep=False: the defining expressions are kept as written (one level), for rules that resolve a name step by step."""
     chain = []
     node = stmt
     parent = {}
@@ -521,6 +544,7 @@ def dominating_env(fn, stmt, cap=1500, keep=()):
     if node is not fn:
         raise AnalysisError('construct not understood: statement outside the function')
     chain.reverse()          # outermost statement first
+    keep = set(keep) | mutated_names([fn])
     env = {}
     owner = fn
     for inner in chain:
@@ -544,8 +568,16 @@ def dominating_env(fn, stmt, cap=1500, keep=()):
         for st in blk:
             if st is inner:
                 break
-            if isinstance(st, ast.Assign) and all(isinstance(t, ast.Name) for t in st.targets):
-                val = subst(st.value, env)
+            if isinstance(st, ast.Assign) and len(st.targets) == 1 and isinstance(st.targets[0], (ast.Tuple, ast.List)) and isinstance(st.value, (ast.Tuple, ast.List)) \
+                    and len(st.value.elts) == len(st.targets[0].elts) and all(isinstance(t, ast.Name) for t in st.targets[0].elts):
+                vals = [subst(v, env) if deep else v for v in st.value.elts]
+                for t, val in zip(st.targets[0].elts, vals):
+                    if _size(val) <= cap and t.id not in keep:
+                        env[t.id] = val
+                    else:
+                        env.pop(t.id, None)
+            elif isinstance(st, ast.Assign) and all(isinstance(t, ast.Name) for t in st.targets):
+                val = subst(st.value, env) if deep else st.value
                 for t in st.targets:
                     if _size(val) <= cap and t.id not in keep:
                         env[t.id] = val
@@ -561,3 +593,28 @@ def dominating_env(fn, stmt, cap=1500, keep=()):
         for k in _stored_names(owner):
             env.pop(k, None)
     return env
+
+
+def replacements(orig, new, name):
+    """expressions that stand, in the substituted statement `new`, where `orig` reads the local `name`"""
+    out = []
+
+    def go(a, b):
+        if isinstance(a, ast.Name) and a.id == name and isinstance(a.ctx, ast.Load):
+            out.append(b)
+            return
+        if isinstance(a, list) and isinstance(b, list) and len(a) == len(b):
+            for x, y in zip(a, b):
+                go(x, y)
+            return
+        if isinstance(a, ast.AST) and isinstance(b, ast.AST) and type(a) is type(b):
+            for (f, x), (g, y) in zip(ast.iter_fields(a), ast.iter_fields(b)):
+                if isinstance(x, (ast.AST, list)):
+                    go(x, y)
+    go(orig, new)
+    # a conditional expression that tested the name and was resolved on this path: the branch taken stands for it
+    for n in ast.walk(new):
+        ie = getattr(n, '_ifexp', None)
+        if ie is not None and any(isinstance(x, ast.Name) and x.id == name for x in ast.walk(ie.test)):
+            out.append(n)
+    return out
